@@ -24,7 +24,8 @@ What is modelled, literally as the code does it:
 * `dvBound`         design-variable bounds handed to scipy (`None` when the sentinel is reached).
 * `step`, `run`     the callbacks as a state machine: `_objfunc x` runs the model at `x` and fills
                     `_con_cache`, `_gradfunc` fills `_grad_cache` from the current model state; no
-                    callback but `_objfunc` looks at its `x` argument.
+                    callback but `_objfunc` looks at its `x` argument (`Variant.noSync`), and the
+                    model is not re-run at `result.x` (`Variant.noFinalSync`).
 
 Every `Variant` flag set to `true` is the code in the anchored tree; `false` is the repaired code.
 Core Lean only.
@@ -43,10 +44,16 @@ structure Variant where
   negNew : Bool
   /-- `_scale_bound` never exchanges lower and upper under a negative scaler -/
   noSwap : Bool
+  /-- no callback but `_objfunc` runs the model: answers come from the caches of the design
+  evaluated last (repaired: a callback first runs the model at its argument when that differs) -/
+  noSync : Bool
+  /-- after `minimize` returns the model stays where the last objective call left it
+  (repaired: it is run once more at `result.x` when that differs) -/
+  noFinalSync : Bool
   deriving DecidableEq, Repr
 
-def Variant.current : Variant := ⟨true, true, true, true, true⟩
-def Variant.fixed : Variant := ⟨false, false, false, false, false⟩
+def Variant.current : Variant := ⟨true, true, true, true, true, true, true⟩
+def Variant.fixed : Variant := ⟨false, false, false, false, false, false, false⟩
 
 section
 variable {K : Type} [LE K] [DecidableLE K] [LT K] [DecidableLT K]
@@ -210,7 +217,9 @@ def newValue (g ax : Nat → K) : NewRec K → K
 /-! ## Sign of the Jacobian row (`_congradfunc`) -/
 
 /-- `+1`: `grad[grad_idx]`, `-1`: `-grad[grad_idx]`.  `modelLowerUnset` is
-`meta['lower'][idx] <= -INF_BOUND` (model units, not the scaled bound `_confunc` looks at). -/
+`meta['lower'][idx] <= -INF_BOUND` (model units, not the scaled bound `_confunc` looks at; the two
+agree as long as the scaled bounds are not exchanged — a repair that exchanges them under a negative
+scaler must make `_congradfunc` look at the scaled bound, see `C21_grad_sign`). -/
 def congradSign (v : Variant) (newStyle isEq modelLowerUnset dbl : Bool) : Int :=
   if isEq then 1
   else if dbl || modelLowerUnset then (if newStyle && !v.negNew then 1 else -1)
@@ -265,23 +274,34 @@ structure St (X : Type) where
   model : X
   gcache : Option X
 
-/-- One callback: the design its answer is actually computed at, and the new state. -/
-def step {X : Type} (s : St X) : Call X → X × St X
+/-- One callback: the design its answer is actually computed at, and the new state.
+Anchored code (`noSync`): only `_objfunc` moves the model.  Repaired code: every callback first
+runs the model at its argument if the model is elsewhere, `_congradfunc` recomputes the totals
+if the cache belongs to another design. -/
+def step {X : Type} [DecidableEq X] (v : Variant) (s : St X) : Call X → X × St X
   | .obj x => (x, { s with model := x })
-  | .con _ => (s.model, s)
-  | .grad _ => (s.model, { s with gcache := some s.model })
-  | .cgrad _ =>
-    match s.gcache with
-    | some g => (g, s)
-    | none => (s.model, { s with gcache := some s.model })
+  | .con x => if v.noSync then (s.model, s) else (x, { s with model := x })
+  | .grad x =>
+    if v.noSync then (s.model, { s with gcache := some s.model })
+    else (x, { model := x, gcache := some x })
+  | .cgrad x =>
+    if v.noSync then
+      match s.gcache with
+      | some g => (g, s)
+      | none => (s.model, { s with gcache := some s.model })
+    else (x, if s.gcache = some x then s else { model := x, gcache := some x })
 
 /-- All answers' designs and the final state. -/
-def run {X : Type} : St X → List (Call X) → List X × St X
+def run {X : Type} [DecidableEq X] (v : Variant) : St X → List (Call X) → List X × St X
   | s, [] => ([], s)
   | s, c :: t =>
-    let r := step s c
-    let rest := run r.2 t
+    let r := step v s c
+    let rest := run v r.2 t
     (r.1 :: rest.1, rest.2)
+
+/-- End of `ScipyOptimizeDriver.run`: where the model is left when the optimizer returned `xr`. -/
+def finish {X : Type} (v : Variant) (s : St X) (xr : X) : St X :=
+  if v.noFinalSync then s else { s with model := xr }
 
 /-- The discipline the glue relies on, read off the call sequence alone: `lastObj` is the argument
 of the latest objective call, `lastGrad` of the latest objective-gradient call.  Values and
